@@ -6,14 +6,15 @@ import gen as G
 import armh
 
 PROP = 'C06'
-LEAN_MODULES = ['BR.Props.C06', 'BR.Props.C06Deriv', 'BR.Props.C06Body']
+LEAN_MODULES = ['BR.Props.C06Link', 'BR.Props.C06', 'BR.Props.C06Deriv', 'BR.Props.C06Body']
 THEOREMS = ['BR.C06.jacobianSpace_col', 'BR.C06.jacobianSpaceAux_col', 'BR.C06.statics_power', 'BR.C06.statics_linear', 'BR.Rot.exp6_conj', 'BR.Rot.fkinSpace_conj',
             'BR.C06D.hasDeriv_jointExp', 'BR.C06D.exp6_revolute', 'BR.C06D.fk_hasDeriv', 'BR.C06D.jacobianSpace_is_derivative',
+            'BR.C06L.linkMassTorques_get', 'BR.C06L.linkMassTorques_split', 'BR.C06L.column_dot_weight', 'BR.C06L.column_dot_weight_on_axis',
             'BR.C06B.jointExp_neg_mul', 'BR.C06B.adjoint_jointExp_self', 'BR.C06B.jacobianBody_cols', 'BR.C06B.jacobianBody_eq']
 TIE = ('K: jacobianSpace / jacobianBody of lean/BR/Model/MR.lean (Float instance, compiled driver) against Arm.jacobian / Arm.jacobianBody on the arm\'s stored screws, plus the statics maps; '
        'the derivative relation itself is evaluated on the real Arm by Richardson-extrapolated central differences of Arm.FK.')
 TRUSTED = ['Lean 4.33 kernel + Mathlib v4.33 (axioms: propext, Classical.choice, Quot.sound)', 'harness/armh.py, harness/c06.py (Richardson differences with steps >= 1e-4, frame references from the constructor arguments)',
-           'the derivative clause is decided on the implementation (finite differences), the algebraic clauses are theorems']
+           'the derivative clause is a theorem for joints that are revolute with a unit axis or prismatic (entrywise HasDerivAt, any chain length) and is also measured on the implementation by finite differences; inside the 1e-6 cut-off band of a joint only the measurement applies']
 ASSUMPTIONS = ['joint vectors within limits; steps >= 1e-4 so the 1e-6 cut-off of the exponential is never entered', 'comparison to 1e-6 relative to the Jacobian norm']
 RULE = ('arms (6R test arm with link frames and masses, random 1..7-joint chains, bundled URDF arms; after move, tool change and tool restore) x joint vectors x rates x wrenches; '
         'distinct = distinct (arm, configuration); non-trivial = configuration not the zero vector')
@@ -188,6 +189,11 @@ def run(res, tier, seed, driver_ok):
                     Wk = np.concatenate([np.cross(c, w), w])
                     for i in range(k):
                         want[i] += Js[:, i] @ Wk
+                # correspondence of the bookkeeping loop: the real Jacobian and the real weight wrenches (fsr.makeWrench) through the model
+                fsr = armh.libs()[1]
+                ws = [np.asarray(fsr.makeWrench(jt[k] @ arm._link_mass_grav_centers[k], arm._link_masses[k], arm.grav).getData(), dtype=float).reshape(-1) for k in range(1, nj + 1)]
+                Hh = lambda xs: ' '.join(C.f2h(x) for x in np.asarray(xs, dtype=float).reshape(-1))
+                lines.append('dyn.linkmass %s %s %s %s' % (C.f2h(nj), Hh(F), Hh(Js.T), Hh(np.array(ws)))); expect.append(tm_.copy())
                 if np.max(np.abs(tm_ - want)) > 1e-6 * max(1.0, np.linalg.norm(want)):
                     bad('linkmass', 'link-mass statics differ from J^T F plus the moment of each distal link weight about each joint axis', inp, {'got': tm_.tolist(), 'want': want.tolist()})
             except Exception as e:
